@@ -291,8 +291,10 @@ Definition dobserve (s : state) : obs :=
     (a_label s) (a_unit s)
     (if (Nat.eqb (a_rank s) 1) && is_numeric (a_ty s) then Some (data_dbl s) else None).
 
-Definition ticks_of (s : state) (d : dimdesc) : list F64 :=
-  match d with DRange t _ _ => t | DAlias => data_dbl s | _ => [] end.
+(** the ticks of a range descriptor; [data] = the array read as doubles (what an alias hands out) *)
+Definition gen_ticks (data : list F64) (d : dimdesc) : list F64 :=
+  match d with DRange t _ _ => t | DAlias => data | _ => [] end.
+Definition ticks_of (s : state) (d : dimdesc) : list F64 := gen_ticks (data_dbl s) d.
 
 (** std::vector<double>::max_size() *)
 Definition vec_max : Z := 1152921504606846975.
@@ -777,8 +779,7 @@ Definition s_observe (s : sstate) : obs :=
     false false (q_label s) (q_unit s)
     (if (Nat.eqb (q_rank s) 1) && is_numeric (q_ty s) then Some (q_data_dbl s) else None).
 
-Definition s_ticks_of (s : sstate) (d : dimdesc) : list F64 :=
-  match d with DRange t _ _ => t | DAlias => q_data_dbl s | _ => [] end.
+Definition s_ticks_of (s : sstate) (d : dimdesc) : list F64 := gen_ticks (q_data_dbl s) d.
 
 Definition s_read (s : sstate) (i : Z) (k : kind) (f : dimdesc -> res ans) : sstate * sres :=
   match s_get i (q_dims s) with
